@@ -143,6 +143,24 @@ class Ctx:
         return {k: self.pick(v) for k, v in (d or {}).items()}
 
 
+LIB = "github.com/aclements/go-moremath/"
+
+
+def library_crash(err):
+    """A fatal runtime error of the binder whose innermost frames are in the library under test; None otherwise."""
+    m = re.search(r"^(fatal error: (stack overflow|runtime: out of memory)|runtime: goroutine stack exceeds [^\n]*)", err, re.M)
+    if not m:
+        return None
+    # innermost non-runtime frames of the crashing goroutine
+    tail = err[m.start():]
+    frames = re.findall(r"^((?:[\w./-]+)\.[\w.()*]+)\(([^\n]*)\)\s*$", tail, re.M)
+    frames = [f for f in frames if not f[0].startswith("runtime.")]
+    if not frames or not frames[0][0].startswith(LIB):
+        return None
+    shown = "; ".join("%s(%s)" % f for f in frames[:3])
+    return "%s inside the library: %s" % (m.group(1), shown[:900])
+
+
 def stage_gen(ctx, st):
     """TLC enumerates the model, checks its invariants and emits cases; binder replays them."""
     fam = st["family"]
@@ -170,6 +188,17 @@ def stage_gen(ctx, st):
             hung = hs
     except Exception:
         pass
+    crash = library_crash(open(os.path.join(d, "binder.err")).read()) if rc2 != 0 else None
+    if crash:
+        # the Go runtime killed the binder inside a call into the library under test (stack exhaustion by unbounded
+        # recursion, out-of-memory by unbounded allocation): not recoverable in-process, but the runtime's own report
+        # names the library frames and their arguments, and re-running the stage reproduces it
+        ctx.states += max(1, info["distinct"])
+        ctx.transitions += max(1, info["generated"])
+        ctx.violations.append(dict(what="library-crash", detail=crash,
+                                   replay=dict(kind="stage", family=fam, stage=st["name"], note="re-run this stage: ./check %s --stage %s" % (ctx.pid, st["name"]))))
+        ctx.stage_reports.append(dict(stage=st["name"], kind="gen", crashed=True, wall_s=round(wall, 1)))
+        return
     if hung is not None:
         # the library did not return from a call: the binder reported it and stopped reading, so TLC's exit status is moot
         absorb_summary(ctx, st, hung, dict(info, distinct=max(1, info["distinct"]), generated=max(1, info["generated"])), wall, exhaustive=False)
@@ -257,7 +286,7 @@ def run_trace_shard(ctx, st, shard, nshards, record_args, race=False):
     if p.returncode != 0:
         # a crash of the real code while being driven is a finding about the code only if the
         # recorder says so (exit 3 = panic / race inside the library under test)
-        if p.returncode == 3 or "WARNING: DATA RACE" in (p.stderr or ""):
+        if p.returncode == 3 or "WARNING: DATA RACE" in (p.stderr or "") or library_crash(p.stderr or ""):
             return dict(shard=shard, crashed=True, stderr=p.stderr[:6000], dir=d, events=0, record_cmd=rcmd[1:])
         raise Machinery("stage %s: recorder failed (exit %d): %s" % (st["name"], p.returncode, p.stderr[-2000:]))
     nev = sum(1 for _ in open(trace))
@@ -466,6 +495,12 @@ def do_replay(pid, prop, path, ctx):
         st["record_args"] = clean + (["-only", str(r["only"])] if r.get("only") is not None else [])
         st["shards"] = 1
         stage_trace(ctx, st)
+    elif r.get("kind") == "stage":
+        st = next(s for s in prop["stages"] if s["name"] == r["stage"])
+        st = dict(st)
+        st.setdefault("family", prop["family"])
+        st.setdefault("specdir", prop.get("specdir", st["family"]))
+        STAGE_KINDS[st["kind"]](ctx, st)
     else:
         raise Machinery("unknown replay file kind")
 
